@@ -93,6 +93,48 @@ fn check_stream(mut s: ByteStream, model: &[u8], cx: &mut Ctx, how: &str) {
                     }
                 }
             }
+            3 if remaining > 0 => {
+                cx.ops += 1;
+                // a vectored read into a small and a large buffer: together they may ask for more
+                // than is left; what comes back is a prefix of what is left, never more
+                let a = cx.rng.range(1, 16.min(remaining as u64)) as usize;
+                let b = cx.rng.range(0, remaining as u64 + 40) as usize;
+                let (mut ba, mut bb) = (vec![0x5Au8; a], vec![0x5Au8; b]);
+                let r = {
+                    let mut bufs = [std::io::IoSliceMut::new(&mut ba), std::io::IoSliceMut::new(&mut bb)];
+                    s.read_vectored(&mut bufs)
+                };
+                match r {
+                    Ok(n) => {
+                        if n > remaining || n > a + b {
+                            cx.bad.push(format!("{} {how}: read_vectored({a}+{b}) returned {n} with {remaining} bytes left", cx.what));
+                            return;
+                        }
+                        let mut got = ba[..n.min(a)].to_vec();
+                        if n > a {
+                            got.extend_from_slice(&bb[..n - a]);
+                        }
+                        if got[..] != model[pos..pos + n] {
+                            cx.bad.push(format!("{} {how}: read_vectored at {pos} (+{n}) differs from the content", cx.what));
+                            return;
+                        }
+                        pos += n;
+                        if s.offset() != pos as u64 || s.size_left() != (model.len() - pos) as u64 {
+                            cx.bad.push(format!("{} {how}: after read_vectored offset()={} size_left()={} (expected {pos})", cx.what, s.offset(), s.size_left()));
+                            return;
+                        }
+                        if n == 0 {
+                            cx.bad.push(format!("{} {how}: read_vectored returned 0 with {remaining} bytes left", cx.what));
+                            return;
+                        }
+                        continue;
+                    }
+                    Err(e) => {
+                        cx.bad.push(format!("{} {how}: read_vectored error {:?} at {pos}", cx.what, e.kind()));
+                        return;
+                    }
+                }
+            }
             2 => {
                 cx.ops += 1;
                 // asking for more than is left must fail, never deliver foreign bytes
